@@ -256,3 +256,19 @@ Example C10_ex_lands :
     [[SK (s"doc"); SK (s"books"); SI 0; SK (s"title")]; [SK (s"doc"); SK (s"books"); SI 1; SK (s"title")];
      [SK (s"doc"); SK (s"shelf"); SK (s"title")]].
 Proof. split; [eexists; split; [vm_compute; reflexivity|]|]; vm_compute; repeat split. Qed.
+
+(* ---- tie to the CURRENT sources of the functions UpdateValuesForPath decides its sub-key conditions with
+   (getSubKeyMap, hasSubKeys of keyvalues.go): go2v re-translates them on every run (Gen/Pure_gen.v) and
+   GenProofs/PureG2.v proves the translations equal to the model functions the theorems above are stated with *)
+From Mxj Require Import Gen.Setters_gen Gen.PureSupport Gen.Pure_gen Model.KeyValues GenProofs.PureG2.
+
+Theorem C10_get_sub_key_map_code_is_model : forall pf st kv, g_fieldSep st <> [] ->
+  fn_getSubKeyMap pf st kv =
+    match get_sub_key_map pf (g_fieldSep st) kv with Ok m => Ret (Ok m) | Err e => Ret (Err e) | Panic => Crash end.
+Proof. exact get_sub_key_map_code_is_model. Qed.
+Print Assumptions C10_get_sub_key_map_code_is_model.
+
+Theorem C10_has_sub_keys_code_is_model : forall st v subkeys,
+  fn_hasSubKeys st v subkeys = Ret (has_sub_keys v subkeys).
+Proof. exact has_sub_keys_code_is_model. Qed.
+Print Assumptions C10_has_sub_keys_code_is_model.
